@@ -140,6 +140,9 @@ pub fn eval_case(prop: Prop, p: &Profile, tape: &Tape) -> Runner {
             genx::run_instantiate(&msg, spec.tables, &tape.world, p)
         }
         Prop::C14 | Prop::C15 => genx::run_migration(prop, p, tape),
+        // fees and solvency are also judged on books that went through the bid format
+        // conversion (a tenth of the cases): legacy re-encoding, migrate, continuation
+        Prop::C09 | Prop::C01 if tape.world[28] % 10 == 0 => genx::run_migration(prop, p, tape),
         _ => gen::run_history(prop, p, tape),
     }
 }
